@@ -105,4 +105,97 @@ theorem init_bysecond_eq (freq : Int) (d : DT) (interval : Int) (x : Option (Lis
       cases constructByset interval d.ss l 60 <;> rfl
     · simp [h, sortedSet]; rfl
 
+/-- `if interval < 1: raise ValueError(...)` (repair D-C01-interval) -/
+theorem init_interval_eq (i : Int) : Gen.init_interval i = if i < 1 then .error .ValueError else .ok () := by
+  unfold Gen.init_interval; split <;> rfl
+
+/-- the week start: the ambient `calendar.firstweekday()` (`fwd`) exactly when `wkst` is not supplied -/
+theorem init_wkst_eq (fwd : Int) (w : Option Int) : Gen.init_wkst fwd w = .ok (w.getD fwd) := by
+  cases w <;> simp [Gen.init_wkst, pure, Except.pure]
+
+/-- the defaults block: BYMONTH / BYMONTHDAY / BYDAY from dtstart when no day-level BY part is given -/
+theorem init_defaults_eq (a : Args) :
+    Gen.init_defaults a.freq a.dtstart a.bymonth a.bymonthday a.byyearday a.byeaster a.byweekno a.byweekday =
+      .ok (if noDayParts a && a.freq == 0 && a.bymonth.isNone then some [a.dtstart.m] else a.bymonth,
+           monthdayArg a, weekdayArg a) := by
+  unfold Gen.init_defaults monthdayArg weekdayArg noDayParts
+  cases h1 : a.byweekno <;> cases h2 : a.byyearday <;> cases h3 : a.bymonthday <;> cases h4 : a.byweekday <;>
+    cases h5 : a.byeaster <;> simp [pure, Except.pure, bind, Except.bind]
+  by_cases f0 : a.freq = 0
+  · cases h6 : a.bymonth <;> simp [f0]
+  · by_cases f1 : a.freq = 1
+    · simp [f1]
+    · by_cases f2 : a.freq = 2 <;> simp [f0, f1, f2]
+
+/-! ### the timeset precomputation -/
+
+def okSomeT (x : Py.R (List HMS)) (acc : List HMS) : Py.R (Option (List HMS)) :=
+  match x with
+  | .ok l => .ok (some (acc ++ l))
+  | .error e => .error e
+
+theorem init_timeset_loop3_eq (h m : Int) (ss : List Int) (acc : List HMS) :
+    Gen.init_timeset_loop3 h m ss (some acc) = okSomeT (checkTimes (ss.map fun s => (h, m, s))) acc := by
+  induction ss generalizing acc with
+  | nil => simp [Gen.init_timeset_loop3, checkTimes, okSomeT, pure, Except.pure]
+  | cons x xs ih =>
+    simp only [Gen.init_timeset_loop3, List.map_cons, checkTimes, bind, Except.bind, the_some]
+    cases mkTime h m x with
+    | error e => rfl
+    | ok t =>
+      simp only [ih]
+      cases checkTimes (xs.map fun s => (h, m, s)) with
+      | error e => rfl
+      | ok l => simp [okSomeT]
+
+theorem init_timeset_loop2_eq (h : Int) (ss ms : List Int) (acc : List HMS) :
+    Gen.init_timeset_loop2 h (some ss) ms (some acc) =
+      okSomeT (checkTimes (ms.flatMap fun m => ss.map fun s => (h, m, s))) acc := by
+  induction ms generalizing acc with
+  | nil => simp [Gen.init_timeset_loop2, checkTimes, okSomeT, pure, Except.pure]
+  | cons m ms ih =>
+    simp only [Gen.init_timeset_loop2, RrPy.iterO, bind, Except.bind, init_timeset_loop3_eq, List.flatMap_cons, checkTimes_append]
+    cases checkTimes (ss.map fun s => (h, m, s)) with
+    | error e => rfl
+    | ok l1 =>
+      simp only [okSomeT, ih]
+      cases checkTimes (ms.flatMap fun m => ss.map fun s => (h, m, s)) with
+      | error e => rfl
+      | ok l2 => simp [okSomeT]
+
+theorem init_timeset_loop1_eq (ms ss hs : List Int) (acc : List HMS) :
+    Gen.init_timeset_loop1 (some ms) (some ss) hs (some acc) = okSomeT (checkTimes (productHMS hs ms ss)) acc := by
+  induction hs generalizing acc with
+  | nil => simp [Gen.init_timeset_loop1, productHMS, checkTimes, okSomeT, pure, Except.pure]
+  | cons h hs ih =>
+    simp only [Gen.init_timeset_loop1, RrPy.iterO, bind, Except.bind, init_timeset_loop2_eq, productHMS, List.flatMap_cons,
+      checkTimes_append]
+    cases checkTimes (ms.flatMap fun m => ss.map fun s => (h, m, s)) with
+    | error e => rfl
+    | ok l1 =>
+      simp only [okSomeT]
+      have := ih (acc ++ l1)
+      simp only [productHMS] at this
+      rw [this]
+      cases checkTimes (hs.flatMap fun h => ms.flatMap fun m => ss.map fun s => (h, m, s)) with
+      | error e => rfl
+      | ok l2 => simp [okSomeT]
+
+/-- the timeset block: `None` from HOURLY on, otherwise the sorted product of the three tuples, each `datetime.time(...)`
+    checked in loop order (below HOURLY the constructor has set all three tuples: `normUnit` with `freq < lvl`) -/
+theorem init_timeset_eq (a : Args) (bh bm bs : Option (List Int))
+    (h : a.freq < 4 → bh.isSome = true ∧ bm.isSome = true ∧ bs.isSome = true) :
+    Gen.init_timeset a.freq bh bm bs = timesetOf a bh bm bs := by
+  unfold Gen.init_timeset timesetOf
+  by_cases hf : a.freq ≥ 4
+  · simp [hf, pure, Except.pure]
+  · obtain ⟨h1, h2, h3⟩ := h (by omega)
+    obtain ⟨hs, rfl⟩ := Option.isSome_iff_exists.mp h1
+    obtain ⟨ms, rfl⟩ := Option.isSome_iff_exists.mp h2
+    obtain ⟨ss, rfl⟩ := Option.isSome_iff_exists.mp h3
+    simp only [hf, if_false, RrPy.iterO, bind, Except.bind, init_timeset_loop1_eq, Option.getD_some, buildTimeset, pure, Except.pure]
+    cases checkTimes (productHMS hs ms ss) with
+    | error e => rfl
+    | ok l => simp [okSomeT]
+
 end RRuleGen
